@@ -51,4 +51,26 @@ CHECKS["C14"] = {
     ],
 }
 
+CHECKS["C17"] = {
+    "pkg": "./checks/c17",
+    "level": "exploration",
+    "rule": "rapid state machine over Trie / SecureTrie on a MemDatabase- or BeansDB-backed node database with cache limit 0..2: update (empty / 1 byte / >32 byte values), delete, get, hash, "
+            "commit (memory layer only), commit+flush, reopen by root on the same node database, restart (flush + fresh node database on the same disk store), read any older flushed root, "
+            "proof (VerifyProof from the recorded path nodes served content-addressed; one node dropped / truncated / bit-flipped must give an error). Keys from a 6-symbol alphabet, length 1..5 (+30 byte tail), "
+            "so shared prefixes and splits dominate. Oracles: map model, root of a fresh trie fed the model sorted and shuffled. non-trivial = history with a delete and a reopen/restart/old-root read and >= 6 ops; distinct by op list digest. "
+            "Merkle: every leaf count 0..40 (200 thorough) x every position x spare slice capacity {0,1,7}: root == independent pairing rule, proof verifies, fails for an altered leaf, "
+            "root changes on alter/drop/swap, caller's slice untouched, tree unaffected by later appends; plus random lists up to 300 leaves with duplicates.",
+    "level_text": "Model-based generated histories against a map and an independently rebuilt trie, and a bounded-exhaustive sweep of the Merkle tree; a few thousand histories per quick run. "
+                  "Exploration: key/value space and history length are bounded by the generator, not by the code.",
+    "level_note": "Trusted: the map model; Keccak; MemDatabase as one of the two disk stores; the light-client proof set (map keyed by Keccak of each blob). Prove() does not exist in this tree, so proofs are assembled from the nodes VerifyProof itself asks for.",
+    "technique": "rapid stateful model-based testing + bounded-exhaustive enumeration",
+    "assumptions": ["an empty value removes the key (documented trie behaviour)", "node blobs of different cases are kept distinct by a per-case salt because the BeansDB store is shared within a process"],
+    "units": [
+        {"name": "trie", "test": "TestC17Trie", "quick": {"checks": 10000, "shards": 4}, "thorough": {"checks": 20000, "shards": 16, "timeout": 3000}},
+        {"name": "merkle", "test": "TestC17MerkleEnumerate", "quick": {}, "thorough": {"timeout": 1800}},
+        {"name": "merkle-random", "test": "TestC17MerkleRandom", "quick": {"checks": 2000}, "thorough": {"checks": 50000, "timeout": 1800}},
+        {"name": "reference-vectors", "test": "TestC17ReferenceVectors", "quick": {}, "thorough": {}},
+    ],
+}
+
 NOT_APPLICABLE = {}
